@@ -23,6 +23,7 @@ import (
 	"net"
 	"os"
 	"runtime"
+	"runtime/debug"
 	"strconv"
 	"strings"
 	"sync"
@@ -101,6 +102,7 @@ type c05Read struct {
 	err   string // code
 	claim int    // > 0: the reader claims this many bytes (non-conforming reader, > len(buf))
 	block bool   // Proxy scenarios: wait until the connection is closed, then answer `closed`
+	waitGot int  // Proxy scenarios (duplex): wait until this connection has accepted that many bytes
 }
 type c05Write struct {
 	accept int
@@ -223,6 +225,8 @@ type c05Conn struct {
 	closeOnce  sync.Once
 	remote     net.Addr
 	pendingFB  string // the SetDeadline just answered ENOTSUP: result the SetReadDeadline fallback will give
+	watchBuf   bool   // Proxy scenarios (duplex): check that the caller leaves p alone while Write runs
+	bufChanged bool
 }
 
 func newC05Conn(w *c05World, isSrc bool) *c05Conn {
@@ -261,6 +265,15 @@ func (c *c05Conn) Read(p []byte) (int, error) {
 	}
 	r := c.reads[c.ri]
 	c.ri++
+	for r.waitGot > 0 && !c.isClosed() {
+		c.w.mu.Lock()
+		n := len(c.got)
+		c.w.mu.Unlock()
+		if n >= r.waitGot {
+			break
+		}
+		time.Sleep(50 * time.Microsecond)
+	}
 	if r.block {
 		<-c.closedCh
 		c.w.mu.Lock()
@@ -316,6 +329,21 @@ func (c *c05Conn) Write(p []byte) (int, error) {
 	n := accept
 	if n > len(p) {
 		n = len(p)
+	}
+	if c.watchBuf {
+		// io.Writer: the caller must not touch p until Write returns. Give the other direction time to
+		// run; a relay buffer shared by the two directions is overwritten by its next Read meanwhile.
+		snap := append([]byte(nil), p...)
+		for i := 0; i < 4; i++ {
+			runtime.Gosched()
+		}
+		time.Sleep(20 * time.Microsecond)
+		if !bytes.Equal(snap, p) {
+			c.w.mu.Lock()
+			c.bufChanged = true
+			c.w.mu.Unlock()
+		}
+		p = snap
 	}
 	c.w.mu.Lock()
 	c.got = append(c.got, p[:n]...)
@@ -511,6 +539,28 @@ func runC05(out *vlib.Out, s *c05Script) string {
 		}
 		fail(kind, fmt.Sprintf("no write fault and no deadline failure, %d read(s) returned %d bytes, destination received %d", nread, len(performed), len(got)))
 	}
+	// no loss up to the point of failure (`no_loss_until_failure`): a failing write is the write of the
+	// last performed read's bytes, so everything the earlier reads returned must have arrived, followed by
+	// a prefix of the last read's bytes; a failing SetDeadline loses nothing that was read
+	if conform && (dst.writeFault || dlFault) {
+		w.mu.Lock()
+		var before, last []byte
+		for i, d := range src.returned {
+			if i < nread-1 {
+				before = append(before, d...)
+			} else {
+				last = d
+			}
+		}
+		w.mu.Unlock()
+		switch {
+		case dst.writeFault && (!bytes.HasPrefix(got, before) || !bytes.HasPrefix(last, got[len(before):])):
+			fail("loss-before-fault", fmt.Sprintf("a write failed or fell short: the %d bytes of the %d earlier read(s) and a prefix of the last read's %d bytes should have arrived, destination received %d bytes",
+				len(before), nread-1, len(last), len(got)))
+		case !dst.writeFault && !bytes.Equal(got, performed):
+			fail("loss-before-fault", fmt.Sprintf("a SetDeadline call failed after %d read(s) had returned %d bytes, destination received %d", nread, len(performed), len(got)))
+		}
+	}
 	counted := atomic.LoadInt64(&stats.BytesUp)
 	other := atomic.LoadInt64(&stats.BytesDown)
 	if !s.up {
@@ -526,6 +576,26 @@ func runC05(out *vlib.Out, s *c05Script) string {
 	// stats.completed ran once: uploads bump completedSessions, downloads add their byte count to
 	// completeBytesDown (and bump zeroByteTunnelsDown when it is zero)
 	ps := stats.proxyStats
+	{
+		ld := atomic.LoadInt64
+		b2i := func(b bool) int64 {
+			if b {
+				return 1
+			}
+			return 0
+		}
+		have := [7]int64{ld(&ps.newBytesUp), ld(&ps.newBytesDown), ld(&ps.completeBytesUp), ld(&ps.completeBytesDown),
+			ld(&ps.zeroByteTunnelsUp), ld(&ps.zeroByteTunnelsDown), ld(&ps.completedSessions)}
+		n := int64(len(got))
+		want := [7]int64{0, n, 0, n, 0, b2i(n == 0), 0}
+		if s.up {
+			want = [7]int64{n, 0, n, 0, b2i(n == 0), 0, 1}
+		}
+		if have != want {
+			fail("completed-accounting-differs", fmt.Sprintf("ProxyStats after one %s direction that delivered %d bytes: newBytesUp/Down, completeBytesUp/Down, zeroByteTunnelsUp/Down, completedSessions = %v, want %v",
+				map[bool]string{true: "upload", false: "download"}[s.up], n, have, want))
+		}
+	}
 	compN := 0
 	switch {
 	case s.up:
@@ -546,11 +616,13 @@ type c05Proxy struct {
 	name     string
 	upChunks [][]byte // what the client sends
 	upLast   string   // "block": the client then waits; else the error code returned WITH the last chunk
-	reply    int      // bytes the covert sends back once it has everything (then it closes)
+	reply    int      // bytes the covert sends back (then it closes its sending side)
 	failAt   int      // client accepts this many reply bytes, then falls short (-1: everything)
 	refuse   bool     // covert port closed
 	header   int      // 0 off, 1 PROXY header with a good client address, 2 with an unparsable one
 	reset    int      // > 0: the covert resets the connection after this many bytes (oracle only)
+	duplex   bool     // both directions move data at the same time: the covert streams its reply from the
+	// start, the i-th client read is released when the client has received i/(k+1) of the reply
 }
 
 var c05Key = bytes.Repeat([]byte{0x11, 0x22}, 16)
@@ -578,6 +650,16 @@ func c05Pattern(n, seed int) []byte {
 	return b
 }
 
+// c05Srv is the covert destination: what it received and how its connection ended.
+type c05Srv struct {
+	mu       sync.Mutex
+	got      []byte
+	conn     net.Conn
+	accepted bool
+	sawClose bool // its Read ended with EOF / a reset (the proxy closed the connection), not with its own deadline
+	endErr   string
+}
+
 func runC05Proxy(out *vlib.Out, p *c05Proxy) (string, string) {
 	var sent []byte
 	for _, c := range p.upChunks {
@@ -590,13 +672,18 @@ func runC05Proxy(out *vlib.Out, p *c05Proxy) (string, string) {
 	expect := len(headerLine) + len(sent)
 	reply := c05Pattern(p.reply, 7)
 
+	// A connection that Proxy forgets to close is closed by the finalizer of its descriptor as soon as the
+	// garbage collector runs, which would hide the leak from the covert's point of view: no collection
+	// while a scenario runs.
+	defer debug.SetGCPercent(debug.SetGCPercent(-1))
+
 	base := runtime.NumGoroutine()
 	ln, err := net.Listen("tcp", "127.0.0.1:0")
 	if err != nil {
 		panic(err)
 	}
 	addr := ln.Addr().String()
-	var srvGot []byte
+	srv := &c05Srv{}
 	srvDone := make(chan struct{})
 	if p.refuse {
 		ln.Close()
@@ -605,32 +692,73 @@ func runC05Proxy(out *vlib.Out, p *c05Proxy) (string, string) {
 		go func() {
 			defer close(srvDone)
 			defer ln.Close()
-			_ = ln.(*net.TCPListener).SetDeadline(time.Now().Add(3 * time.Second))
+			_ = ln.(*net.TCPListener).SetDeadline(time.Now().Add(40 * time.Second))
 			c, err := ln.Accept()
 			if err != nil {
 				return
 			}
 			defer c.Close()
-			_ = c.SetDeadline(time.Now().Add(20 * time.Second))
-			buf := make([]byte, 64*1024)
-			replied := false
-			for {
-				if !replied && len(srvGot) >= expect && p.upLast == "block" {
-					replied = true
+			_ = c.SetDeadline(time.Now().Add(40 * time.Second))
+			srv.mu.Lock()
+			srv.conn, srv.accepted = c, true
+			srv.mu.Unlock()
+			gotAll := make(chan struct{})
+			var wdone chan struct{}
+			if p.duplex {
+				wdone = make(chan struct{})
+				go func() { // stream the reply while the upload is still arriving
+					defer close(wdone)
 					if _, err := c.Write(reply); err != nil {
 						return
+					}
+					<-gotAll
+					_ = c.(*net.TCPConn).CloseWrite()
+				}()
+			}
+			buf := make([]byte, 64*1024)
+			replied, all := false, false
+			for {
+				srv.mu.Lock()
+				n0 := len(srv.got)
+				srv.mu.Unlock()
+				if !all && n0 >= expect {
+					all = true
+					close(gotAll)
+				}
+				if !p.duplex && !replied && n0 >= expect && p.upLast == "block" {
+					replied = true
+					if _, err := c.Write(reply); err != nil {
+						srv.mu.Lock() // EPIPE / reset: the other end has closed the connection
+						srv.sawClose, srv.endErr = true, err.Error()
+						srv.mu.Unlock()
+						break
 					}
 					_ = c.(*net.TCPConn).CloseWrite()
 				}
 				n, err := c.Read(buf)
-				srvGot = append(srvGot, buf[:n]...)
-				if p.reset > 0 && len(srvGot) >= p.reset {
+				srv.mu.Lock()
+				srv.got = append(srv.got, buf[:n]...)
+				total := len(srv.got)
+				srv.mu.Unlock()
+				if p.reset > 0 && total >= p.reset {
 					_ = c.(*net.TCPConn).SetLinger(0)
-					return
+					break
 				}
 				if err != nil {
-					return
+					ne, isNet := err.(net.Error)
+					srv.mu.Lock()
+					srv.sawClose = !(isNet && ne.Timeout())
+					srv.endErr = err.Error()
+					srv.mu.Unlock()
+					break
 				}
+			}
+			if !all {
+				close(gotAll)
+			}
+			if wdone != nil {
+				c.Close()
+				<-wdone
 			}
 		}()
 	}
@@ -639,6 +767,7 @@ func runC05Proxy(out *vlib.Out, p *c05Proxy) (string, string) {
 	client := newC05Conn(w, true)
 	client.quiet = true
 	client.failAt = p.failAt
+	client.watchBuf = p.duplex
 	if p.header == 2 {
 		client.remote = c05Addr("not-an-address")
 	}
@@ -646,6 +775,9 @@ func runC05Proxy(out *vlib.Out, p *c05Proxy) (string, string) {
 		r := c05Read{data: c, err: "-"}
 		if i == len(p.upChunks)-1 && p.upLast != "block" {
 			r.err = p.upLast
+		}
+		if p.duplex {
+			r.waitGot = len(reply) * i / (len(p.upChunks) + 1)
 		}
 		client.reads = append(client.reads, r)
 	}
@@ -680,15 +812,25 @@ func runC05Proxy(out *vlib.Out, p *c05Proxy) (string, string) {
 		fail("proxy-does-not-return", "Proxy had not returned after 30 s")
 		client.Close()
 	}
+	// Proxy has returned: every Close it makes on the covert connection has been called (the deferred one
+	// synchronously), so the covert must see EOF or a reset; 5 s is three orders of magnitude more than the
+	// loopback needs. A covert still reading after that was not closed.
+	srv.mu.Lock()
+	if srv.conn != nil {
+		_ = srv.conn.SetReadDeadline(time.Now().Add(5 * time.Second))
+	}
+	srv.mu.Unlock()
 	<-srvDone
 	settled := c05WaitGoroutines(base)
 	out.Checked()
 	gauge1 := atomic.LoadInt64(&getProxyStats().sessionsProxying)
+	srvGot := srv.got
 
 	// tunnel summary
 	var ts struct {
-		BytesUp, BytesDown int64
-		CovertDialErr      string
+		BytesUp, BytesDown           int64
+		CovertDialErr, CovertConnErr string
+		ClientConnErr                string
 	}
 	printed := strings.Count(logbuf.String(), "proxy closed ")
 	if i := strings.Index(logbuf.String(), "proxy closed "); i >= 0 {
@@ -700,11 +842,13 @@ func runC05Proxy(out *vlib.Out, p *c05Proxy) (string, string) {
 	}
 	w.mu.Lock()
 	cliGot := append([]byte(nil), client.got...)
+	bufChanged := client.bufChanged
 	w.mu.Unlock()
 	started := atomic.LoadInt32(&client.closes) > 0 // observed: the relay ran iff it closed the client
 	if started != (!p.refuse && p.header != 2) && returned && !panicked {
 		fail("not-closed", fmt.Sprintf("relay expected to run: %v, client connection closed: %v", !p.refuse && p.header != 2, started))
 	}
+	covertClosed := srv.accepted && srv.sawClose
 
 	if returned && !panicked {
 		if !settled {
@@ -712,6 +856,12 @@ func runC05Proxy(out *vlib.Out, p *c05Proxy) (string, string) {
 		}
 		if gauge1 != gauge0 {
 			fail("gauge-unbalanced", fmt.Sprintf("sessionsProxying %d -> %d", gauge0, gauge1))
+		}
+		if srv.accepted && p.reset == 0 && !srv.sawClose {
+			fail("covert-not-closed", fmt.Sprintf("5 s after Proxy returned the covert's connection was still open (its read ended with %q)", srv.endErr))
+		}
+		if bufChanged {
+			fail("buffer-changed-during-write", "the bytes handed to the client's Write changed while the call was in progress: the relay buffer is shared between the two directions")
 		}
 		if started {
 			if atomic.LoadInt32(&client.closes) < 1 {
@@ -774,20 +924,33 @@ func runC05Proxy(out *vlib.Out, p *c05Proxy) (string, string) {
 	up := &c05Script{up: true, reads: client.reads, srcClose: "-", dstClose: "-"}
 	down := &c05Script{srcClose: "-", dstClose: "-"}
 	if p.upLast == "block" {
-		if len(reply) > 0 {
-			down.reads = append(down.reads, c05Read{data: reply, err: "-"})
+		// the reply as the covert connection's reads (any chunking gives the same totals: pieces of at most
+		// one buffer), the client's writes accepting failAt bytes in all
+		room := p.failAt
+		for off := 0; off < len(reply); off += 32 * 1024 {
+			end := off + 32*1024
+			if end > len(reply) {
+				end = len(reply)
+			}
+			down.reads = append(down.reads, c05Read{data: reply[off:end], err: "-"})
+			if p.failAt >= 0 {
+				acc := end - off
+				if room < acc {
+					acc = room
+				}
+				room -= acc
+				down.writes = append(down.writes, c05Write{acc, "-"})
+			}
 		}
 		down.reads = append(down.reads, c05Read{err: "eof"})
-		if p.failAt >= 0 {
-			down.writes = []c05Write{{p.failAt, "-"}}
-		}
 	} else {
 		down.reads = []c05Read{{err: "closed"}}
 	}
 	line := "proxy|" + dial + "|" + hd + "|" + up.fields() + "|" + down.fields()
-	ans := fmt.Sprintf("started:%s|ret:%s|gauge:%d|printed:%d|up:%d|down:%d|dial:%s|cc:%d|panic:%s",
+	ans := fmt.Sprintf("started:%s|ret:%s|gauge:%d|printed:%d|up:%d|down:%d|dial:%s|cli:%s|cov:%s|cc:%d|vc:%s|panic:%s",
 		vlib.B(started), vlib.B(returned), gauge1-gauge0, printed, ts.BytesUp, ts.BytesDown,
-		vlib.Hex([]byte(ts.CovertDialErr)), atomic.LoadInt32(&client.closes), vlib.B(panicked))
+		vlib.Hex([]byte(ts.CovertDialErr)), vlib.Hex([]byte(ts.ClientConnErr)), vlib.Hex([]byte(ts.CovertConnErr)),
+		atomic.LoadInt32(&client.closes), vlib.B(covertClosed), vlib.B(panicked))
 	return line, ans
 }
 
@@ -828,7 +991,7 @@ type c05WriteShape struct {
 
 func c05Enumerate(out *vlib.Out, maxR, maxW, maxDl int) {
 	readAlpha := []c05ReadShape{{2, "-"}, {0, "-"}, {2, "eof"}, {0, "eof"}, {1, "rst"}, {0, "timeout"}, {3, c05Other(0)}}
-	writeAlpha := []c05WriteShape{{0, "-"}, {2, "-"}, {1, "epipe"}, {2, c05Other(2)}}
+	writeAlpha := []c05WriteShape{{0, "-"}, {2, "-"}, {1, "eof"}, {2, c05Other(2)}}
 	var rseqs [][]c05ReadShape
 	var wseqs [][]c05WriteShape
 	var recR func(p []c05ReadShape)
@@ -874,15 +1037,17 @@ func c05Enumerate(out *vlib.Out, maxR, maxW, maxDl int) {
 				cv := c05CloseVariants[(k/2)%len(c05CloseVariants)]
 				s.srcClose, s.dstClose = cv[0], cv[1]
 				ctr := k
-				for _, r := range rs {
-					s.reads = append(s.reads, c05Read{data: c05Data(&ctr, r.n), err: r.err})
+				// the alphabet names one error per class; the members of each class of generalizeErr (the
+				// ones it maps to nil, the ones it replaces by a sentinel) are cycled through by case number
+				for j, r := range rs {
+					s.reads = append(s.reads, c05Read{data: c05Data(&ctr, r.n), err: c05Rotate(r.err, k/3+j)})
 				}
-				for _, w := range ws {
+				for j, w := range ws {
 					acc := 32 * 1024
 					if w.short > 0 {
 						acc = w.short - 1
 					}
-					s.writes = append(s.writes, c05Write{acc, w.err})
+					s.writes = append(s.writes, c05Write{acc, c05Rotate(w.err, k/3+j)})
 				}
 				// dl = position of the failing deadline call (-1: none). Three flavours, cycled: plain
 				// connections; obfs4-style ones (every SetDeadline unsupported, read-deadline fallback
@@ -913,6 +1078,18 @@ func c05Enumerate(out *vlib.Out, maxR, maxW, maxDl int) {
 			}
 		}
 	}
+}
+
+var c05Classes = [][]string{{"eof", "closed", "epipe"}, {"rst", "refused", "aborted", "unreach"}}
+
+// c05Rotate replaces an error code by the i-th member of its class (codes outside the classes stay).
+func c05Rotate(code string, i int) string {
+	for _, cl := range c05Classes {
+		if code == cl[0] {
+			return cl[i%len(cl)]
+		}
+	}
+	return code
 }
 
 func c05Random(r *vlib.Rand) *c05Script {
@@ -1100,6 +1277,9 @@ func c05ProxyScenarios(r *vlib.Rand, n int) []*c05Proxy {
 		{name: "proxy-header-unparsable-client-address", upChunks: chunks(9), upLast: "block", header: 2, failAt: -1},
 		{name: "empty-upload-big-reply", upChunks: nil, upLast: "block", reply: 30000, failAt: -1},
 		{name: "covert-resets", upChunks: chunks(5000, 5000, 5000), upLast: "block", reset: 4000, failAt: -1},
+		// full duplex: 12 x 32 KiB of one pattern flow down while 12 / 14 chunks of another flow up
+		{name: "duplex-12x32k", upChunks: chunks(32*1024, 7, 32*1024, 4096, 32*1024-1, 1, 20000, 32*1024, 512, 32*1024, 9999, 32*1024), upLast: "block", reply: 12 * 32 * 1024, failAt: -1, duplex: true},
+		{name: "duplex-proxy-header-small-chunks", upChunks: chunks(100, 200, 300, 400, 500, 600, 700, 800, 900, 1000, 1100, 1200, 1300, 1400), upLast: "block", reply: 11*32*1024 + 17, header: 1, failAt: -1, duplex: true},
 	}
 	lasts := []string{"block", "block", "eof", "rst", "timeout", "closed", c05Other(0)}
 	for i := 0; i < n; i++ {
@@ -1125,7 +1305,11 @@ func c05ProxyScenarios(r *vlib.Rand, n int) []*c05Proxy {
 		if r.Chance(1, 5) {
 			p.header = 1
 		}
-		if r.Chance(1, 10) && k > 0 {
+		if p.upLast == "block" && p.failAt < 0 && r.Chance(1, 8) {
+			p.duplex = true
+			p.reply = r.Range(2, 6)*32*1024 + r.Intn(1000)
+		}
+		if r.Chance(1, 10) && k > 0 && !p.duplex {
 			tot := 0
 			for _, c := range p.upChunks {
 				tot += len(c)
@@ -1178,6 +1362,28 @@ func TestVerifC05(t *testing.T) {
 		if line != "" {
 			out.Case(line, ans, true)
 		}
+	}
+}
+
+// TestVerifC05Race runs the Proxy scenarios (fixed ones and a few random ones) under the race detector:
+// the two directions, the asynchronous close of each source connection and the final Print share one
+// tunnelStats; the check turns every report of the detector into an oracle failure.
+func TestVerifC05Race(t *testing.T) {
+	golog.SetOutput(io.Discard)
+	Stat()
+	getProxyStats()
+	out := vlib.Open("C05race")
+	defer out.Close()
+	out.Note("C05 race: the Proxy scenarios under go test -race")
+	for _, p := range c05ProxyScenarios(vlib.NewRand("C05proxy"), vlib.Budget(8, 80)) {
+		if p.reset > 0 {
+			// A covert that resets makes BOTH directions record an error for the covert side (the upload's
+			// write and the download's read fail) in the same unsynchronised string of tunnelStats: the
+			// documented race of the error strings (plan: modelled_not_verified), not what this run is for.
+			continue
+		}
+		runC05Proxy(out, p)
+		out.Count("race:proxy-scenario")
 	}
 }
 
